@@ -59,6 +59,22 @@ def main():
                     continue
                 tab = e2e.parse_tsv(res['files']['pairwise_ranks.tsv'])
                 outs[(nt, hs)] = {(t['FeatureA'], t['FeatureB']): float(t['Score']) for t in tab}
+        # sub-sampled estimation with a column of many distinct values, pairwise scope: the pool size still does not matter
+        d2 = os.path.join(d, 'hc')
+        rows2 = [r[:4] + [f'id{(i * 7) % 900}'] + r[4:] for i, r in enumerate(rows[:2 * B])]
+        e2e.write_csv(d2, cols[:4] + ['hc'] + cols[4:], rows2)
+        outs2 = {}
+        for nt in (1, 3):
+            res = e2e.run_cli(d2, dict(flags, num_threads=nt, mi_stratified_sampling_ratio=0.5, combination_number_upper_bound=1000))
+            h.record(('cli-ratio', nt), True)
+            if res['rc'] != 0 or 'pairwise_ranks.tsv' not in res['files']:
+                h.fail('cli.ranking_task_completes', {'num_threads': nt, 'mi_stratified_sampling_ratio': 0.5}, f"rc={res['rc']} {res['stderr'][-300:]}")
+                continue
+            outs2[nt] = {(t['FeatureA'], t['FeatureB']): float(t['Score']) for t in e2e.parse_tsv(res['files']['pairwise_ranks.tsv'])}
+        if len(outs2) == 2 and outs2[1] != outs2[3]:
+            diff = [k for k in outs2[1] if outs2[3].get(k) != outs2[1][k]]
+            h.fail('identical_for_every_pool_size_and_fresh_run', {'mi_stratified_sampling_ratio': 0.5, 'columns': cols[:4] + ['hc'] + cols[4:], 'num_threads': [1, 3],
+                                                                  'rows': '2 batches, column hc with 900 distinct values'}, f'{len(diff)} pair scores differ, e.g. {diff[:3]}')
         # string-hash seed independence with a feature focus set and a binding cap (fixed defect 662f225)
         focus = {}
         for hs in ('0', '1', '2', '3') if quick else [str(i) for i in range(8)]:
